@@ -35,7 +35,11 @@ type c16Config struct {
 	Attrs   []dict.AttrDef  `json:"attrs"`
 	HasAttr bool            `json:"has_attr_file"`
 	Split   bool            `json:"one_file_per_chord,omitempty"`
-	Path    string          `json:"path"`
+	// Override: the user file redefines built-in names. The statement does not fix whether the
+	// earlier or the later definition wins, so a verdict is demanded only where both readings
+	// agree, and notes only for look-ups that mean the same under both.
+	Override bool   `json:"redefines_builtins,omitempty"`
+	Path     string `json:"path"`
 }
 
 func init() {
@@ -205,6 +209,24 @@ func c16UserEval(e *Env, c *c16Config) {
 	}
 	sort.Slice(battrs, func(i, j int) bool { return battrs[i].Name < battrs[j].Name })
 	rd, rerr := dict.Build(append(battrs, c.Attrs...), append(append([]dict.ChordDef{}, base.Order...), c.Chords...))
+	var rdFirst *dict.Dict
+	if c.Override {
+		// the other reading: the earlier (built-in) definition wins
+		var ferr error
+		rdFirst, ferr = dict.Build(append(append([]dict.AttrDef{}, c.Attrs...), battrs...), append(append([]dict.ChordDef{}, c.Chords...), base.Order...))
+		if (ferr == nil) != (rerr == nil) {
+			e.R.Outcome("override: the two readings disagree on consistency, no verdict")
+			return
+		}
+	}
+	sameMeaning := func(look string) bool {
+		if rdFirst == nil {
+			return true
+		}
+		a, ok1 := rd.Resolve(look)
+		b, ok2 := rdFirst.Resolve(look)
+		return ok1 && ok2 && eqInts(semis(a), semis(b))
+	}
 	consistent := rerr == nil
 	cyclic := rerr != nil && strings.Contains(rerr.Error(), "cyclic")
 
@@ -261,7 +283,7 @@ func c16UserEval(e *Env, c *c16Config) {
 			}
 			for _, uc := range c.Chords {
 				for _, look := range []string{uc.Name, uc.Meta.Display} {
-					if c16Ambiguous(c.Chords, look) {
+					if c16Ambiguous(c.Chords, look) || !sameMeaning(look) {
 						continue
 					}
 					want, _ := rd.Resolve(look)
@@ -318,7 +340,7 @@ func c16UserEval(e *Env, c *c16Config) {
 	}
 	for _, uc := range c.Chords {
 		for _, look := range []string{uc.Name, uc.Meta.Display} {
-			if c16Ambiguous(c.Chords, look) {
+			if c16Ambiguous(c.Chords, look) || !sameMeaning(look) {
 				continue
 			}
 			want, _ := rd.Resolve(look)
@@ -333,9 +355,36 @@ func c16UserEval(e *Env, c *c16Config) {
 			}
 		}
 	}
+	if c.Override {
+		// an untouched built-in still means what it meant, and the dictionary loads at all
+		for _, look := range []string{"sus2", "aug", "dim", "6"} {
+			touched := !sameMeaning(look)
+			for _, uc := range c.Chords {
+				if uc.Name == rd.Chords[look].Name || uc.Meta.Display == look {
+					touched = true
+				}
+			}
+			if touched {
+				continue
+			}
+			want, _ := rd.Resolve(look)
+			if got, msg, _ := playedAbove("cli", look, cfg); msg != "" {
+				fail("C16/user-dict/consistent-refused", "a dictionary that is consistent whichever definition wins cannot be used: "+msg)
+				return
+			} else if !eqInts(got, semis(want)) {
+				fail("C16/user-dict/resolution", fmt.Sprintf("built-in %s sounds %v next to a user file that does not touch it", look, got))
+				return
+			}
+			break
+		}
+	}
 	// info chord describe agrees as well
 	first := c.Chords[0]
-	args := []string{"info", "chord", "describe", "-t", "C_" + first.Meta.Display}
+	target := "C_" + first.Meta.Display
+	if first.Meta.Display == "" {
+		target = "C"
+	}
+	args := []string{"info", "chord", "describe", "-t", target}
 	args = append(args, cfg.args()...)
 	r := cli.In("", args...)
 	if !r.OK() {
@@ -599,6 +648,145 @@ func runC16(e *Env) {
 		}
 	})
 	e.R.AddPart(ev.Part{Name: "user-dictionaries", Enumerated: fmt.Sprintf("%d user dictionaries (n = 1, 2%s) in-process through chord.ParseChords/ParseAttributes + Builder.Build + GetChordAttributes; %d of them (every dictionary with a cycle among the user chords, and a regular sample of the rest; dictionaries of two chords also as one --chord file per chord) through `crd write --chord F --attr G` and `crd info chord describe`", len(cfgs), map[bool]string{true: ", 3 on a reduced option set", false: ""}[e.Thorough], cliN), Executions: int64(len(cfgs)) + cliN, Exhaustive: true})
+	c16Chains(e)
+	c16Overrides(e)
 	e.R.Sample(map[string]any{"user_chords": []map[string]any{{"name": "UserA", "display": "ua", "extends": "UserB", "attributes": []string{"Major6"}}, {"name": "UserB", "display": "ub", "extends": "m7"}}, "oracle": "UserA = 0 3 7 10 + 9"})
 	_ = bytes.Equal
+}
+
+// c16Chains: `extends` is transitive at any depth. Chains of k user chords on top of built-in
+// roots of depth 1..4, every chord adding one attribute, referring to the parent by name or by
+// display, declared parent-first, child-first and interleaved.
+func c16Chains(e *Env) {
+	add := []string{"Major9", "Perfect11", "Major13", "Minor7", "Augmented4", "Minor6", "Minor9", "Augmented5", "Major6", "Minor13", "Augmented11", "Minor3", "Major7", "Perfect4", "Major2", "Diminished5", "Augmented9", "Minor2", "Diminished7", "Major3"}
+	maxK := 12
+	if e.Thorough {
+		maxK = 20
+	}
+	var cfgs []c16Config
+	for _, root := range []string{"", "MajorTriad", "maj9", "m7", "mM9", "dim7"} {
+		for k := 1; k <= maxK; k++ {
+			for order := 0; order < 3; order++ {
+				var cs []dict.ChordDef
+				for i := 0; i < k; i++ {
+					d := dict.ChordDef{Name: fmt.Sprintf("Link%d", i), Attributes: []string{add[i%len(add)]}}
+					d.Meta.Display = fmt.Sprintf("lk%d", i)
+					switch {
+					case i == 0:
+						d.Extends = root
+					case i%2 == 0:
+						d.Extends = fmt.Sprintf("Link%d", i-1)
+					default:
+						d.Extends = fmt.Sprintf("lk%d", i-1)
+					}
+					cs = append(cs, d)
+				}
+				switch order {
+				case 1: // child first
+					for a, b := 0, len(cs)-1; a < b; a, b = a+1, b-1 {
+						cs[a], cs[b] = cs[b], cs[a]
+					}
+				case 2: // even links, then odd links
+					var ev, od []dict.ChordDef
+					for i, c := range cs {
+						if i%2 == 0 {
+							ev = append(ev, c)
+						} else {
+							od = append(od, c)
+						}
+					}
+					cs = append(ev, od...)
+				}
+				if root == "" && k == 1 {
+					continue // a chord needs attributes or extends; it has one attribute: fine, but no root to name
+				}
+				cfgs = append(cfgs, c16Config{Chords: cs, Path: "lib"})
+			}
+		}
+	}
+	var cliN int64
+	mc.ParFor(len(cfgs), func(i int) {
+		c := cfgs[i]
+		c16UserEval(e, &c)
+		e.R.NonTrivialN(1)
+		if n := len(c.Chords); n == 1 || n >= 7 && n <= 10 || n == 12 || e.Thorough {
+			cc := cfgs[i]
+			cc.Path = "cli"
+			c16UserEval(e, &cc)
+			atomic.AddInt64(&cliN, 1)
+			if n == 9 {
+				cs := cfgs[i]
+				cs.Path = "cli"
+				cs.Split = true
+				c16UserEval(e, &cs)
+				atomic.AddInt64(&cliN, 1)
+			}
+		}
+	})
+	e.R.AddPart(ev.Part{Name: "extends-chains", Enumerated: fmt.Sprintf("chains of k = 1..%d user chords, each adding one attribute and extending the previous one (by name and by display alternately), on top of {nothing, MajorTriad, maj9, m7, mM9, dim7} (built-in depth 0..4) x declaration order {parent first, child first, even links then odd links}: every link looked up by name and by display and compared with the reference resolution; in-process all %d, real binary %d (k = 1, 7..10, 12; one file per chord for k = 9)", maxK, len(cfgs), cliN), Executions: int64(len(cfgs)) + cliN, Exhaustive: true})
+}
+
+// c16Overrides: user files that redefine built-in entries. Whichever definition wins, these
+// dictionaries are consistent, so they must load; look-ups that mean the same under both
+// readings must sound that.
+func c16Overrides(e *Env) {
+	base, err := refDict(e.RepoDir, nil, nil)
+	if err != nil {
+		panic(err)
+	}
+	byKey := map[string]dict.ChordDef{}
+	for _, c := range base.Order {
+		byKey[c.Name] = c
+		byKey[c.Meta.Display] = c
+	}
+	attrNames := func(c dict.ChordDef) []string {
+		// the chord's complete attribute list, written out (no extends needed)
+		var chain []dict.ChordDef
+		for cur := c; ; cur = byKey[cur.Extends] {
+			chain = append(chain, cur)
+			if cur.Extends == "" {
+				break
+			}
+		}
+		var r []string
+		for i := len(chain) - 1; i >= 0; i-- {
+			r = append(r, chain[i].Attributes...)
+		}
+		return r
+	}
+	var cfgs []c16Config
+	for _, child := range base.Order {
+		if child.Extends == "" {
+			continue
+		}
+		parent := byKey[child.Extends]
+		// (a) the same entry again; (b) the entry flattened; (c) the pair with the direction reversed:
+		// the child becomes the primary chord, the parent an alias of it (same notes as before when the
+		// child adds nothing, more notes otherwise - a consistent dictionary either way)
+		same := child
+		flat := child
+		flat.Extends, flat.Attributes = "", attrNames(child)
+		prim := child
+		prim.Extends, prim.Attributes = "", attrNames(child)
+		alias := parent
+		alias.Extends, alias.Attributes = child.Name, nil
+		aliasByDisplay := alias
+		aliasByDisplay.Extends = child.Meta.Display
+		cfgs = append(cfgs,
+			c16Config{Chords: []dict.ChordDef{same}, Override: true},
+			c16Config{Chords: []dict.ChordDef{flat}, Override: true},
+			c16Config{Chords: []dict.ChordDef{prim, alias}, Override: true},
+			c16Config{Chords: []dict.ChordDef{alias, prim}, Override: true},
+			c16Config{Chords: []dict.ChordDef{prim, aliasByDisplay}, Override: true},
+		)
+	}
+	mc.ParFor(len(cfgs), func(i int) {
+		for _, path := range []string{"lib", "cli"} {
+			c := cfgs[i]
+			c.Path = path
+			c16UserEval(e, &c)
+		}
+		e.R.NonTrivialN(2)
+	})
+	e.R.AddPart(ev.Part{Name: "redefined-built-ins", Enumerated: fmt.Sprintf("for every built-in chord that extends another one (%d): a user file that repeats it, flattens it, or reverses the pair (the child becomes the primary chord, the parent its alias; both declaration orders; alias by name and by display); where the dictionary is consistent whichever definition wins it must load, and every look-up that means the same under both readings must sound that; in-process and real binary", len(cfgs)/5), Executions: int64(2 * len(cfgs)), Exhaustive: true})
 }
